@@ -32,7 +32,7 @@ RULE = (
     "Non-trivial = a history with >= 2 invocations and >= 1 batch of size >= 2 or >= 1 expired request; distinct by case hash."
 )
 ASSUMPTIONS = ["the start-up loading phase (commented out in simulator.py) is performed by the harness through scheduler.start()",
-               "scheduler_run_load is off (the default): models are loaded/evicted by explicit history operations"]
+               "a quarter of the histories run with scheduler_run_load and 1-3 units of RAM per worker (the policy decides loads and evictions, the harness applies them as the simulator would); in the others models are loaded/evicted by explicit history operations"]
 US = EventTime.Unit.US
 
 
@@ -67,8 +67,13 @@ def history_strategy(tier):
             st.tuples(st.just("evict"), st.integers(0, 2), st.integers(0, 2)),
         )
         ops = draw(st.lists(op, min_size=4, max_size=30))
-        return {"seed": draw(st.integers(0, 999)), "workers": workers, "models": models, "goal": draw(st.sampled_from(["clockwork", "least_slack"])),
+        case = {"seed": draw(st.integers(0, 999)), "workers": workers, "models": models, "goal": draw(st.sampled_from(["clockwork", "least_slack"])),
                 "ops": [list(o) for o in ops]}
+        if draw(st.integers(0, 3)) == 0:
+            # --scheduler_run_load: the policy itself decides model loads and evictions; little memory makes it evict
+            case["run_load"] = True
+            case["ram"] = draw(st.integers(1, 3))
+        return case
 
     return s()
 
@@ -77,8 +82,9 @@ def execute(case):
     res = CaseResult()
     V = res.violations
     env.reset_case(case["seed"])
-    flags = build.make_flags(random_seed=case["seed"], scheduler="Clockwork")
-    workers = [Worker(name=f"W{i}", resources=Resources({Resource(name="GPU"): w["GPU"], Resource(name="RAM"): 4})) for i, w in enumerate(case["workers"])]
+    run_load = bool(case.get("run_load"))
+    flags = build.make_flags(random_seed=case["seed"], scheduler="Clockwork", scheduler_run_load=run_load)
+    workers = [Worker(name=f"W{i}", resources=Resources({Resource(name="GPU"): w["GPU"], Resource(name="RAM"): case.get("ram", 4)})) for i, w in enumerate(case["workers"])]
     pool = WorkerPool(name="P0", workers=workers)
     wps = WorkerPools([pool])
     profiles, jobs = [], []
@@ -110,6 +116,7 @@ def execute(case):
     big_batch = False
     expiries = 0
     placed_total = 0
+    profile_ops = 0
 
     def bad(clause, detail):
         V.append(Violation(clause, f"{detail}; case={case}", f"clockwork.{clause}.{case['goal']}"))
@@ -167,9 +174,16 @@ def execute(case):
                         fastest = min(us(s.runtime) for s in t.available_execution_strategies)
                         if us(t.deadline) < now + fastest:
                             r["hopeless"] = True
+                def live():
+                    return {w.name: (free_gpu(w), w.resources.get_available_quantity(Resource(name="RAM", _id="any")),
+                                     sorted(p_.name for p_ in w.get_available_profiles()), sorted(p_.name for p_ in w.get_pending_profiles())) for w in workers}
+
+                live_before = live()
                 placements = policy.schedule(T(now), wl, wps)
                 if {w.id: free_gpu(w) for w in workers} != free:
                     bad("side_effect", f"schedule() changed the live workers: free GPUs {free} -> { {w.id: free_gpu(w) for w in workers} }")
+                elif live() != live_before:
+                    bad("side_effect", f"schedule() changed the live workers (free GPU, free RAM, loaded, pending): {live_before} -> {live()}")
                 batches = {}
                 decided = {}
                 for p in placements:
@@ -245,7 +259,17 @@ def execute(case):
                             bad("expired_request_placed", f"t={now}: {t.unique_name} placed although it was hopeless/cancelled earlier")
                 if V:
                     break
-                # apply the answer as the simulator does
+                # apply the answer as the simulator does (evictions before loads before task placements, as its event
+                # priorities order them)
+                for p in placements:
+                    if p.placement_type == Placement.PlacementType.EVICT_WORK_PROFILE:
+                        pool.evict_profile(p.work_profile, p.worker_id)
+                        profile_ops += 1
+                for p in placements:
+                    if p.placement_type == Placement.PlacementType.LOAD_WORK_PROFILE:
+                        pool.load_profile(p.work_profile, p.loading_strategy, p.worker_id)
+                        profile_ops += 1
+                pool.step(T(now), T(0))
                 for p in placements:
                     if p.placement_type == Placement.PlacementType.CANCEL_TASK:
                         tg = wl.get_task_graph(p.task.task_graph)
@@ -266,6 +290,8 @@ def execute(case):
     res.nontrivial = invocations >= 2 and (big_batch or expiries > 0)
     res.counters = {"invocations": invocations, "requests": len(requests), "placed": placed_total, "cancelled": expiries}
     res.classes = [f"goal={case['goal']}", "big_batch" if big_batch else "no_big_batch", "expiry" if expiries else "no_expiry"]
+    if run_load:
+        res.classes.append("run_load" + ("_with_profile_decisions" if profile_ops else ""))
     seen, outv = set(), []
     for v in V:
         if v.sig not in seen:
